@@ -13,6 +13,9 @@ REPRS = {
     "usize": (64, False),
     "i8": (8, True), "i16": (16, True), "i32": (32, True), "i64": (64, True),
     "isize": (64, True),
+    # 128-bit: reachable for Kani only when the smallest discriminant is not 0 (otherwise
+    # rustc puts Option<E>'s niche at u128::MAX and kani-compiler 0.68 ICEs, rvalue.rs:1009)
+    "u128": (128, False), "i128": (128, True),
 }
 REPR_ORDER = ["u8", "i8", "u16", "i16", "u32", "i32", "u64", "i64", "usize", "isize"]
 I64_MIN, I64_MAX = -(2 ** 63), 2 ** 63 - 1
@@ -20,7 +23,8 @@ I64_MIN, I64_MAX = -(2 ** 63), 2 ** 63 - 1
 
 def rmin(r):
     bits, signed = REPRS[r]
-    return -(2 ** (bits - 1)) if signed else 0
+    m = -(2 ** (bits - 1)) if signed else 0
+    return max(m, I64_MIN)  # the derive's documented domain is i64
 
 
 def rmax(r):
@@ -350,6 +354,8 @@ def k5(thorough):
     vals = list(range(-128, -60)) + list(range(-50, 0)) + list(range(10, 30))
     out.append(mk("k5_i8_138", "i8", vals, "K5", order="runs_reversed", implicit="max",
                   note="138 variants i8 with holes: names-before-run offset > i8::MAX"))
+    out.append(mk("k5_i8_150g", "i8", range(-100, 50), "K5", order="sorted", implicit="max",
+                  note="150 gapless variants on i8: table index exceeds i8::MAX (sign extension of index casts)"))
     out.append(mk("k5_u8_256", "u8", range(0, 256), "K5", order="sorted", implicit="max",
                   tier="t", note="all 256 values of u8"))
     out.append(mk("k5_u8_250h", "u8", list(range(0, 200)) + list(range(205, 255)), "K5",
@@ -404,8 +410,40 @@ def k6():
     return out
 
 
+def kani_ok_128(values):
+    """rustc (nightly 2026-08) puts Option<E>'s niche at whichever of min-1 / max+1 is closer
+    to zero; kani-compiler 0.68 ICEs (rvalue.rs:1009, u64::try_from(niche_start)) when that is
+    negative.  Measured on 11 shapes; modules that ICE anyway are dropped by the driver."""
+    lo, hi = min(values), max(values)
+    a, b = lo - 1, hi + 1
+    chosen = a if abs(a) <= abs(b) else b
+    return 0 <= chosen < 2 ** 64
+
+
 def admissible_reprs(values):
-    return [r for r in REPR_ORDER if all(rmin(r) <= v <= rmax(r) for v in values)]
+    rs = [r for r in REPR_ORDER if all(rmin(r) <= v <= rmax(r) for v in values)]
+    if kani_ok_128(values):
+        rs += [r for r in ("u128", "i128") if all(rmin(r) <= v <= rmax(r) for v in values)]
+    return rs
+
+
+def k9():
+    """128-bit reprs (smallest discriminant != 0, see REPRS)"""
+    out = []
+    lo, hi = I64_MIN, I64_MAX
+    out.append(mk("k9_i128", "i128", [lo, lo + 1, lo + 3, -10, -9, -8, -1, 0, 1, 5, hi - 1, hi], "K9",
+                  order="shuffled", seed=12, implicit="alt", renames={5: "five"},
+                  note="i128 with holes over the whole i64 domain"))
+    out.append(mk("k9_u128", "u128", [1, 2, 4, 10, 11, 12, 100, 200, 201, hi - 1, hi], "K9",
+                  order="shuffled", seed=13, implicit="alt", note="u128 with holes, min 1"))
+    out.append(mk("k9_i128_gap", "i128", range(-3, 3), "K9", order="interleave", note="i128 gapless straddling 0"))
+    out.append(mk("k9_u128_gap", "u128", range(5, 10), "K9", order="reversed", implicit="none", note="u128 gapless, min 5"))
+    out.append(mk("k9_i128_neg", "i128", range(-4, 0), "K9", order="sorted", implicit="alt", note="i128 gapless, all negative"))
+    out.append(mk("k9_u128_hi", "u128", range(hi - 3, hi + 1), "K9", order="reversed", note="u128 gapless at i64::MAX"))
+    out.append(mk("k9_i128_1", "i128", [-1], "K9", tier="t", note="single variant"))
+    out.append(mk("k9_u128_150", "u128", range(1, 151), "K9", order="sorted", implicit="max", tier="t", note="150 gapless"))
+    assert all(kani_ok_128(d.disc) for d in out)
+    return out
 
 
 def k7(thorough):
@@ -417,18 +455,22 @@ def k7(thorough):
         ("k7b", [2, 3, 4, 5, 6], {3: "three"}),
         ("k7c", [0, 1, 2, 50, 100, 101], {}),
     ]
+    big = list(range(-20, 130)) + list(range(1000, 1150))
+    maps.append(("k7d", big, {}))
     for fid, vals, ren in maps:
         members = []
         reprs = admissible_reprs(vals)
         if not thorough:
             # quick: narrowest, a 64 bit one, a pointer-sized one
-            keep = [reprs[0], "i64", "isize" if "isize" in reprs else "usize"]
+            keep = [reprs[0], "i64", "isize" if "isize" in reprs else "usize", "i128"]
             if fid == "k7c":
                 keep = ["u8", "i16", "u64"]
+            if fid == "k7d":
+                keep = ["i16", "i32"]
             reprs = [r for r in reprs if r in keep]
         for r in reprs:
-            for oi, order in enumerate(["sorted", "reversed", "shuffled"]):
-                if not thorough and (r != reprs[0]) and order != ["reversed", "shuffled", "sorted"][REPR_ORDER.index(r) % 3]:
+            for oi, order in enumerate(["sorted", "reversed", "shuffled"] if fid != "k7d" else ["runs_reversed"]):
+                if fid != "k7d" and not thorough and (r != reprs[0]) and order != ["reversed", "shuffled", "sorted"][list(REPRS).index(r) % 3]:
                     continue
                 members.append(mk("%s_%s_%s" % (fid, r, order[:3]), r, vals, "K7",
                                   order=order, seed=11, implicit="alt" if oi != 1 else "none",
